@@ -53,7 +53,7 @@ CHECKS.update({
 
 CHECKS.update({
  "C01": dict(
-   technique="property-based testing (proptest): generated class models encoded by an independent encoder under generated encoding choices; reference-model oracle plus metamorphic relation across encodings; oracle self-checked by an independent strict decoder",
+   technique="property-based testing (proptest) + coverage-guided fuzzing (libFuzzer, thorough tier): generated class models encoded by an independent encoder under generated encoding choices; reference-model oracle plus metamorphic relation across encodings; differential against an independent strict decoder on a javac-compiled corpus",
    text="Generated-input exploration: the generating model is ground truth; the tree duke reads is projected into the same model (opcodes, flag bits, table layouts re-derived from JVMS in the harness) and must be equal, for two independent encodings of every class (pool permutation, junk entries, attribute order, short/wide instruction forms, switch paddings, frame forms). Holds on everything explored apart from the listed known findings.",
    note="Trusted: harness model/encoder/decoder/projection (self-checked per case: decode(encode(m))==m), duke::verif accessors. Only defined flag bits, valid Unicode, names valid for duke's types.",
    ref="DESIGN.md §4 C01"),
@@ -61,7 +61,7 @@ CHECKS.update({
 
 CHECKS.update({
  "C02": dict(
-   technique="property-based testing (proptest): read-write-decode round trip through an independent strict JVMS decoder, with an instruction alignment oracle for widened jumps; constructed branch-geometry generator around the 16-bit limits",
+   technique="property-based testing (proptest) + coverage-guided fuzzing (libFuzzer target c02_rewrite, thorough tier): read-write-decode round trip through an independent strict JVMS decoder, with an instruction alignment oracle for widened jumps; constructed branch-geometry generator around the 16-bit limits; trees after renaming; javac corpus",
    text="Generated-input exploration: every tree duke reads from generated classes (all encodings) and from geometry classes (jumps laid out at 32767+-8 / -32768+-8 whose spans grow when ldc becomes ldc_w, nested so that widening cascades, switches behind stretched regions, code sizes around 65535, locals around 255/256) is written by duke; the output must pass the harness's strict decoder and decode to the projection of the tree under an alignment that accepts only the inverted-if/goto_w trampoline; an Err is accepted only for methods that cannot fit. Holds on everything explored apart from the listed known finding (frames are not written).",
    note="Trusted: harness encoder/decoder/projection/alignment. Trees come from reading valid files only (Label is not constructible outside duke). Err between the exact and the worst-case size is accepted.",
    ref="DESIGN.md §4 C02"),
@@ -94,7 +94,7 @@ CHECKS.update({
 CHECKS.update({
  "C16": dict(
    category="fault_enumeration",
-   technique="structure-aware fault enumeration / mutation fuzzing in sandboxed child processes: every structural field of generated valid files set to boundary values, truncations, index redirection, hand-assembled hostile files, token/line/byte mutations of valid text; oracle = only a value or a clean Err (panic site, child death, allocation request measured by a counting allocator)",
+   technique="structure-aware fault enumeration / mutation fuzzing in sandboxed child processes, plus coverage-guided libFuzzer campaigns (targets c16_bytes, c16_text) in the thorough tier: every structural field of generated valid files set to boundary values, truncations, index redirection, hand-assembled hostile files, token/line/byte mutations of valid text; oracle = only a value or a clean Err (panic site, child death, allocation request measured by a counting allocator)",
    text="Fault enumeration: hundreds of thousands (thorough: millions) of deterministically enumerated malformed inputs derived from valid class files, tiny/tinydiff/enigma/nests text and descriptor strings are given to duke::read_class (+write_class on acceptance), read_class_multi into (), quill's four text readers, Nests::read and the three descriptor parsers inside sandboxed children; a panic, the death of the child (stack overflow, abort) or a single allocation request beyond 64x input + 16 MiB is a violation, a stall is inconclusive. Holds on everything enumerated after the recorded fixes.",
    note="Trusted: harness encoder field map, sandbox (counting global allocator, catch_unwind, child protocol). 'Never loops forever' is only observable as a watchdog expiry (exit 2).",
    ref="DESIGN.md §4 C16"),
